@@ -397,6 +397,10 @@ func (g *Gen) loopEnv(li *loopInfo, st *State, phiVals map[string]Val, blk *ssa.
 			env.vars[fmt.Sprintf("dom0_%d", i+1)] = Val{Sort: "(Array " + ks + " Bool)", S: it.dom0}
 			// rangemapN: the map the N-th range statement iterates over (often an unnamed call result)
 			env.vars[fmt.Sprintf("rangemap%d", i+1)] = Val{T: it.mt, S: it.m}
+			if it.count != "" {
+				// nvisitedN: how many entries the N-th range statement has yielded so far
+				env.vars[fmt.Sprintf("nvisited%d", i+1)] = Val{T: types.Typ[types.Int], S: g.heapGet(st, it.count)}
+			}
 		}
 	}
 	return env
@@ -861,6 +865,9 @@ func (g *Gen) loopModified(li *loopInfo) (map[string][]ssa.Value, bool) {
 				if r, ok := x.Iter.(*ssa.Range); ok {
 					if it := g.iters[r]; it != nil && !it.str {
 						add(it.visited, nil)
+						if it.count != "" {
+							add(it.count, nil)
+						}
 					}
 				}
 			case ssa.CallInstruction:
